@@ -1272,6 +1272,7 @@ Section ViewInd.
   Hypothesis Hclean : forall id c, P c -> P (VCleanup id c).
   Hypothesis Halloc : forall s c, P c -> P (VAlloc s c).
   Hypothesis Hitem : forall p s, P (VItem p s).
+  Hypothesis Hdynl : forall p, P (VDynL p).
   Fixpoint view_ind2 (v : view) : P v :=
     match v with
     | VText => Htext
@@ -1287,6 +1288,7 @@ Section ViewInd.
     | VCleanup id c => Hclean id c (view_ind2 c)
     | VAlloc s c => Halloc s c (view_ind2 c)
     | VItem p s => Hitem p s
+    | VDynL p => Hdynl p
     end.
 End ViewInd.
 
@@ -1316,6 +1318,7 @@ Proof.
       cbn [scoped_list scoped andb]. now rewrite H.
   - cbn [scoped_list scoped andb]. assumption.
   - cbn [scoped_list scoped andb]. assumption.
+  - reflexivity.
   - reflexivity.
 Qed.
 
